@@ -4,7 +4,7 @@ cell   : the finite grammar, enumerated completely on the real engines: 8 operat
          operand x kind of the other operand (literal of each type, field of each whitelisted field type, list, tuple,
          None, another missing field, a list holding a missing field) x boolean context x both engines.
 stream : heterogeneous record streams (some records have the field, some do not, some hold None) filtered through
-         RecordStreamReader(selector=...) and record_stream([...], selector) (the loop rdump uses, which swallows
+         RecordStreamReader(selector=...), record_stream([...], selector) and `rdump -s` itself (which swallow
          an exception per source): the output must be exactly the records that have the field and satisfy the
          condition, in order.
 Oracle is stated on the real observation only; the Lean model (interpMatch / compiledMatch with the concrete Prim)
@@ -39,7 +39,7 @@ RULE = ("cell: exhaustive product operator{==,!=,<,>,<=,>=,in,not in} x position
         "{14 literals, one field per whitelisted field type + string[] + record + None-valued field, another missing "
         "field, list/tuple holding a missing field} x context{bare, C and True, True and C, C or False, False or C, "
         "not C, not not C} x engine{interpreted, compiled}; field values drawn per seed. stream: seeded mixed streams "
-        "x operator x constant x engine x reader. Every case is non-trivial (each evaluates a comparison with the "
+        "x operator x constant x engine x reader{RecordStreamReader, record_stream, rdump -s}. Every case is non-trivial (each evaluates a comparison with the "
         "sentinel); distinct by hash of the case.")
 TRUSTED = ["CPython's rich-comparison and membership dispatch (modelled in PyOps.lean; exercised exhaustively)"]
 ASSUMPTIONS = ["other operands are the builtin types and flow.record field types enumerated by the grammar"]
@@ -93,39 +93,7 @@ def cell_record_spec(rng):
     return fields
 
 
-def build_field(t, spec):
-    import datetime
-    if spec is None:
-        return None
-    if t == "bytes":
-        return bytes.fromhex(spec)
-    if t == "datetime":
-        return datetime.datetime.fromisoformat(spec)
-    if t == "digest":
-        return tuple(spec)
-    if t == "record":
-        from flow.record import RecordDescriptor
-        sub = RecordDescriptor("t/sub", [("string", "q")])
-        return sub(q=spec["q"], _generated=EPOCH())
-    return spec
-
-
-def EPOCH():
-    import datetime
-    return datetime.datetime(2020, 1, 1, tzinfo=datetime.timezone.utc)
-
-
-_desc_cache = {}
-
-
-def build_record(name, fields):
-    from flow.record import RecordDescriptor
-    key = (name, tuple((t, n) for t, n, _ in fields))
-    if key not in _desc_cache:
-        _desc_cache[key] = RecordDescriptor(name, [(t, n) for t, n, _ in fields])
-    with warnings.catch_warnings():
-        warnings.simplefilter("ignore")
-        return _desc_cache[key](_generated=EPOCH(), **{n: build_field(t, v) for t, n, v in fields})
+build_record = SA.build_record
 
 
 def cell_source(op, pos, other_src, ctx):
@@ -149,24 +117,18 @@ def others(recspec):
 
 def gen_cases(rng, tier):
     cases = []
-    recspec = cell_record_spec(rng.fork("cellrec"))
-    if tier != "search":
+    # the finite grammar, completely; thorough repeats it on three records with different field values
+    for rep in range({"quick": 1, "thorough": 3, "search": 1}[tier]):
+        recspec = cell_record_spec(rng.fork("cellrec%d" % rep if rep else "cellrec"))
+        ctxs = CTX if tier != "search" else ["bare"]  # contexts add nothing when hunting for a failing cell
         for eng in ENGINES:
             for op in OPS:
                 for pos in ("L", "R"):
                     for kind, src, ft in others(recspec):
-                        for ctx in CTX:
+                        for ctx in ctxs:
                             cases.append({"kind": "cell", "engine": eng, "op": op, "pos": pos, "other": kind,
                                           "src": cell_source(op, pos, src, ctx), "ctx": ctx, "rec": recspec})
-    else:
-        # search tier: the bare table on a fresh record (contexts add nothing when hunting for a failing cell)
-        for eng in ENGINES:
-            for op in OPS:
-                for pos in ("L", "R"):
-                    for kind, src, ft in others(recspec):
-                        cases.append({"kind": "cell", "engine": eng, "op": op, "pos": pos, "other": kind,
-                                      "src": cell_source(op, pos, src, "bare"), "ctx": "bare", "rec": recspec})
-    n = {"quick": 120, "thorough": 3000, "search": 600}[tier]
+    n = {"quick": 300, "thorough": 6000, "search": 1000}[tier]
     r = rng.fork("stream")
     for _ in range(n):
         cases.append(gen_stream(r))
@@ -193,7 +155,7 @@ def gen_stream(r):
     pos = r.weighted([(3, "L"), (1, "R")])
     const = r.choice(STREAM_CONSTS[ft])
     engine = r.choice(ENGINES)
-    via = r.choice(["reader", "record_stream"])
+    via = r.choice(["reader", "record_stream", "rdump"])
     nsrc = 1 if via == "reader" else r.randint(1, 3)
     sources = []
     idx = 0
@@ -284,9 +246,19 @@ def run_real(case):
             import logging
             logging.disable(logging.CRITICAL)
             try:
-                for rec in record_stream(paths, sel):
-                    got.append(int(rec.idx))
-            except Exception as e:
+                if case["via"] == "rdump":
+                    # the command line tool: rdump -s <selector> [-n] sources... -w out.records
+                    from flow.record.tools import rdump
+                    outp = os.path.join(d, "out.records")
+                    argv = ["-s", case["src"]] + (["-n"] if case["engine"] == "interpreted" else []) + paths + ["-w", outp]
+                    rdump.main(argv)
+                    with open(outp, "rb") as f:
+                        for rec in RecordStreamReader(f):
+                            got.append(int(rec.idx))
+                else:
+                    for rec in record_stream(paths, sel):
+                        got.append(int(rec.idx))
+            except (Exception, SystemExit) as e:
                 err = _err(e)
             finally:
                 logging.disable(logging.NOTSET)
@@ -423,7 +395,7 @@ def m_compiled_in_left_raises(case, obs, failure):
     # stream: the reader aborts with TypeError (record_stream swallows it and skips the rest of that source)
     if case["via"] == "reader":
         return bool(obs["raised"]) and obs["raised"]["error"] == "TypeError"
-    return not obs["raised"]
+    return not obs["raised"]  # record_stream / rdump: swallowed per source, records after it are missing
 
 
 def m_ne_answered(case, obs, failure):
